@@ -445,3 +445,34 @@ def run_case(ctx, desc):
                     ctx.violation("metric_weighted-definition", f"{op}(metric_weighted) {frm}->{to} != op(data*m)/m(result)")
             except Exception as e:
                 ctx.violation("metric_weighted-definition", f"raised {type(e).__name__}: {str(e)[:200]}")
+    # several axes in one call, each weighted by its own metric (the documented per-axis mapping): equal to the one-axis
+    # weighted calls applied one after another, each of which multiplies by the metric of *its* axis at the array's
+    # current position and divides by the one at the result's position
+    if len(q) >= 2 and dt != "bool":
+        a0, a1 = q[0], q[1]
+        tos2 = {}
+        for ax in (a0, a1):
+            f0 = desc["apos"][ax]
+            cand = [p for p in cm[ax] if p != "center"] if f0 == "center" else ["center"]
+            if cand:
+                tos2[ax] = cand[desc["dseed"] % len(cand)]
+        if len(tos2) == 2:
+            op = ["interp", "diff", "max"][desc["dseed"] % 3]
+            spell = (lambda x: x) if desc["dseed"] % 2 else (lambda x: (x,))
+            try:
+                with warnings.catch_warnings():
+                    warnings.simplefilter("ignore")
+                    s1 = getattr(g, op)(arr, a0, to=tos2[a0], boundary="extend", metric_weighted=spell(a0))
+                    s2 = getattr(g, op)(s1, a1, to=tos2[a1], boundary="extend", metric_weighted=spell(a1))
+            except Exception:
+                s2 = None
+            if s2 is not None:
+                ctx.judged(("metric_weighted-per-axis", op, desc["apos"][a0], tos2[a0], desc["apos"][a1], tos2[a1]), True)
+                try:
+                    with warnings.catch_warnings():
+                        warnings.simplefilter("ignore")
+                        both = getattr(g, op)(arr, [a0, a1], to=dict(tos2), boundary="extend", metric_weighted={a0: spell(a0), a1: spell(a1)})
+                    if set(both.dims) != set(s2.dims) or not np.allclose(both.transpose(*s2.dims).values, s2.values, rtol=1e-12, atol=1e-12, equal_nan=True):
+                        ctx.violation("metric_weighted-definition", f"{op} over [{a0}, {a1}] with metric_weighted given per axis differs from the two one-axis weighted calls applied in turn")
+                except Exception as e:
+                    ctx.violation("metric_weighted-definition", f"{op} over two axes with a per-axis metric_weighted mapping raised {type(e).__name__}: {str(e)[:200]}")
